@@ -16,6 +16,8 @@ pub struct BinCtx {
     pub args: Vec<std::ffi::OsString>,
     pub envs: Vec<(String, std::ffi::OsString)>,
     pub bin: String,
+    /// persistent (keep-alive) connections, one per listen address index
+    pub conns: std::collections::HashMap<usize, TcpStream>,
 }
 
 fn free_port() -> u16 {
@@ -103,10 +105,58 @@ pub fn send_raw(addr: &str, prep: &Prepared) -> std::thread::Result<RawResult> {
     }))
 }
 
+/// send a request with a body of known length over a PERSISTENT connection (kept open for the next
+/// request, whoever the next client is — what a pooling reverse proxy does); None = the connection
+/// could not be used (the caller falls back to a fresh one)
+pub fn send_keepalive(s: &mut TcpStream, addr: &str, prep: &Prepared) -> Option<RawResult> {
+    let mut head = format!("{} {} HTTP/1.1\r\nHost: {}\r\nConnection: keep-alive\r\n", prep.method, prep.uri, addr).into_bytes();
+    if let Some(c) = &prep.cid_bytes {
+        head.extend_from_slice(b"X-Client-Id: ");
+        head.extend_from_slice(c);
+        head.extend_from_slice(b"\r\n");
+    }
+    if let Some(ct) = &prep.ct_val {
+        head.extend_from_slice(format!("Content-Type: {ct}\r\n").as_bytes());
+    }
+    let body: Vec<u8> = prep.chunks.concat();
+    head.extend_from_slice(format!("Content-Length: {}\r\n\r\n", body.len()).as_bytes());
+    s.set_read_timeout(Some(Duration::from_secs(20))).ok();
+    s.write_all(&head).ok()?;
+    s.write_all(&body).ok()?;
+    s.flush().ok()?;
+    // response head
+    let mut buf: Vec<u8> = vec![];
+    let mut one = [0u8; 1];
+    while !buf.ends_with(b"\r\n\r\n") {
+        let n = s.read(&mut one).ok()?;
+        if n == 0 {
+            return None;
+        }
+        buf.push(one[0]);
+        if buf.len() > 65536 {
+            return None;
+        }
+    }
+    let head_txt = String::from_utf8_lossy(&buf).to_string();
+    let mut lines = head_txt.split("\r\n");
+    let status: u16 = lines.next()?.split_whitespace().nth(1)?.parse().ok()?;
+    let mut hdrs: Vec<(String, Vec<u8>)> = vec![];
+    for l in lines {
+        if let Some((k, v)) = l.split_once(':') {
+            hdrs.push((k.trim().to_ascii_lowercase(), v.trim().as_bytes().to_vec()));
+        }
+    }
+    let get = |n: &str| hdrs.iter().find(|(k, _)| k == n).map(|(_, v)| v.clone());
+    let n: usize = get("content-length").and_then(|v| String::from_utf8_lossy(&v).parse().ok())?;
+    let mut body = vec![0u8; n];
+    s.read_exact(&mut body).ok()?;
+    Some(Ok((status, get("x-version-id"), get("x-parent-version-id"), get("x-snapshot-request"), get("content-type"), get("cache-control"), body)))
+}
+
 impl BinCtx {
     pub fn new(seed: u64) -> Self {
         let bin = std::env::var("TSS_SERVER_BIN").expect("TSS_SERVER_BIN");
-        BinCtx { h: HCtx::new(Backend::Sqlite, seed), child: None, addrs: vec![], args: vec![], envs: vec![], bin }
+        BinCtx { h: HCtx::new(Backend::Sqlite, seed), child: None, addrs: vec![], args: vec![], envs: vec![], bin, conns: std::collections::HashMap::new() }
     }
 
     /// boot listen=flag:N|env:N dir=flag|env allow=none|flag:a,b|env:a,b|flagempty versions=default|flag:K|env:K days=default|flag:K|env:K
@@ -234,6 +284,7 @@ impl BinCtx {
         match toks {
             ["boot", rest @ ..] => self.boot(rest),
             ["kill"] => {
+                self.conns.clear();
                 self.kill();
                 self.h.l1.out.push("OP mark kill".into());
                 self.h.l1.out.push("R mark".into());
@@ -258,6 +309,34 @@ impl BinCtx {
                 self.h.l1.open(false);
                 self.h.l1.out.push("OP reopen".into());
                 self.h.l1.out.push(format!("R {}", if ok { "unit" } else { "RESTART-FAILED" }));
+            }
+            [first, rest @ ..] if first.starts_with("httpk@") => {
+                // the same, over the persistent connection of that address
+                let k: usize = first[6..].parse().unwrap();
+                let prep = self.h.build(rest);
+                let now = chrono::Utc::now().timestamp();
+                let idx = k % self.addrs.len().max(1);
+                let addr = self.addrs.get(idx).cloned().unwrap_or_default();
+                let simple = prep.chunks.len() <= 1 && !prep.broken && !prep.http10;
+                let mut res: Option<RawResult> = None;
+                if simple {
+                    if !self.conns.contains_key(&idx) {
+                        if let Ok(c) = TcpStream::connect(&addr) {
+                            self.conns.insert(idx, c);
+                        }
+                    }
+                    if let Some(c) = self.conns.get_mut(&idx) {
+                        res = send_keepalive(c, &addr, &prep);
+                    }
+                    if res.is_none() {
+                        self.conns.remove(&idx);
+                    }
+                }
+                let raw = match res {
+                    Some(r) => Ok(r),
+                    None => send_raw(&addr, &prep),
+                };
+                self.h.finish(prep, raw, now, None);
             }
             [first, rest @ ..] if first.starts_with("http@") => {
                 let k: usize = first[5..].parse().unwrap();
